@@ -105,39 +105,79 @@ def run(p, report, tier):
     if not infs:
         report.add("R20.2", ent, "-inf for candidates outside the subset", f"{sw.file}:{sw.node.lineno}", False,
                    detail="no -inf store into the returned utilities")
-    # index translation on the exclude_non_subsample path
-    tr1 = [n for n in ast.walk(sw.node) if isinstance(n, ast.Assign) and ast.unparse(n.targets[0]) == "queried_indices"
-           and isinstance(n.value, ast.Subscript) and ast.unparse(n.value.value) == "subset_and_labeled_indices"
-           and ast.unparse(n.value.slice) == "queried_indices"]
-    g1 = False
-    for n in tr1:
-        for (s, owner, field, idx) in tree.ancestors(n):
-            if isinstance(owner, ast.If) and field == "body" and "exclude_non_subsample" in ast.unparse(owner.test):
-                g1 = True
-    report.add("R20.2", ent, "queried indices translated through subset_and_labeled_indices when rows were removed",
-               f"{sw.file}:{sw.node.lineno}", bool(tr1) and g1)
-    # the sub-matrix handed to the inner strategy is indexed by the same array
-    sub = [n for n in ast.walk(sw.node) if isinstance(n, ast.Assign) and isinstance(n.value, ast.Subscript)
-           and ast.unparse(n.value.slice) == "subset_and_labeled_indices" and ast.unparse(n.value.value) in ("X", "y")]
-    report.add("R20.2", ent, "X and y are restricted by the same subset_and_labeled_indices", f"{sw.file}:{sw.node.lineno}",
-               len(sub) == 2)
-    tr2 = [n for n in ast.walk(sw.node) if isinstance(n, ast.Assign) and isinstance(n.value, ast.Subscript)
-           and ast.unparse(n.value.value) == "new_candidate_indices" and "queried_indices" in ast.unparse(n.value.slice)]
-    g2 = False
-    for n in tr2:
-        for (s, owner, field, idx) in tree.ancestors(n):
-            if isinstance(owner, ast.If) and field == "body" and "ndim > 1" in ast.unparse(owner.test):
-                g2 = True
-    report.add("R20.2", ent, "feature-row candidates: picks translated through new_candidate_indices",
-               f"{sw.file}:{sw.node.lineno}", bool(tr2) and g2)
+    # ---- roles (recovered from dataflow, not from variable names)
+    Xn = yn = None
+    for n in ast.walk(sw.node):
+        if isinstance(n, ast.Assign) and isinstance(n.value, ast.Call) and c01.callname(n.value) == "_validate_data" \
+                and isinstance(n.targets[0], ast.Tuple) and len(n.targets[0].elts) >= 2:
+            Xn, yn = n.targets[0].elts[0].id, n.targets[0].elts[1].id
     inner = [n for n in ast.walk(sw.node) if isinstance(n, ast.Call) and isinstance(n.func, ast.Attribute)
              and n.func.attr == "query" and "query_strategy" in ast.unparse(n.func.value)]
-    okf = False
-    if inner:
-        kw = kwmap(inner[0])
-        okf = all(isinstance(kw.get(k), ast.Name) and kw[k].id == k for k in ("batch_size", "return_utilities")) \
-            and isinstance(kw.get("candidates"), ast.Name) and kw["candidates"].id == "new_candidates"
-    report.add("R20.2", ent, "inner query gets the subset, the clipped batch size and return_utilities", f"{sw.file}:{sw.node.lineno}", okf)
+    if not inner or Xn is None:
+        raise AnalysisError("SubSamplingWrapper.query: inner query / validated inputs not found")
+    inner = inner[0]
+    kw = kwmap(inner)
+    # result of the inner query and the picked indices unpacked from it
+    res_names = set()
+    for n in ast.walk(sw.node):
+        if isinstance(n, ast.Assign) and n.value is inner:
+            res_names |= {t.id for t in n.targets if isinstance(t, ast.Name)}
+    pick_names = set(res_names)
+    for n in ast.walk(sw.node):
+        if isinstance(n, ast.Assign) and isinstance(n.value, ast.Name) and n.value.id in res_names:
+            t = n.targets[0]
+            if isinstance(t, ast.Name):
+                pick_names.add(t.id)
+            elif isinstance(t, ast.Tuple) and isinstance(t.elts[0], ast.Name):
+                pick_names.add(t.elts[0].id)
+    # S: the index array that restricts both X and y before the inner query
+    subs = {}
+    for n in ast.walk(sw.node):
+        if isinstance(n, ast.Assign) and isinstance(n.value, ast.Subscript) and isinstance(n.value.value, ast.Name) \
+                and n.value.value.id in (Xn, yn) and isinstance(n.value.slice, ast.Name):
+            subs.setdefault(n.value.slice.id, set()).add(n.value.value.id)
+    S = [k for k, v in subs.items() if v == {Xn, yn}]
+    report.add("R20.2", ent, "X and y are restricted by the same index array", f"{sw.file}:{sw.node.lineno}", len(S) == 1,
+               detail=f"restricting arrays: { {k: sorted(v) for k, v in subs.items()} }")
+    okx = False
+    if S:
+        xs = kw.get("X"), kw.get("y")
+        # the inner query receives the restricted X/y (or the originals on the other branch)
+        okx = all(isinstance(a, ast.Name) for a in xs)
+    tr1 = [n for n in ast.walk(sw.node) if S and isinstance(n, ast.Assign) and isinstance(n.targets[0], ast.Name)
+           and n.targets[0].id in pick_names and isinstance(n.value, ast.Subscript)
+           and isinstance(n.value.value, ast.Name) and n.value.value.id == S[0]
+           and isinstance(n.value.slice, ast.Name) and n.value.slice.id in pick_names]
+    g1 = False
+    for n in tr1:
+        for (s_, owner, field, idx) in tree.ancestors(n):
+            if isinstance(owner, ast.If) and field == "body" and "exclude_non_subsample" in ast.unparse(owner.test):
+                g1 = True
+    report.add("R20.2", ent, "picks translated through the restricting index array when rows were removed",
+               f"{sw.file}:{sw.node.lineno}", bool(tr1) and g1,
+               detail="picks = S[picks] under the exclude_non_subsample test" if (tr1 and g1) else
+               "the inner strategy's picks refer to the reduced X but are returned untranslated")
+    # feature-row candidates: positions drawn by choice translate the picks
+    drawn = set()
+    for n in ast.walk(sw.node):
+        if isinstance(n, ast.Assign) and isinstance(n.value, ast.Call) and c01.callname(n.value) == "choice":
+            drawn |= {t.id for t in n.targets if isinstance(t, ast.Name)}
+    tr2 = [n for n in ast.walk(sw.node) if isinstance(n, ast.Assign) and isinstance(n.value, ast.Subscript)
+           and isinstance(n.value.value, ast.Name) and n.value.value.id in drawn
+           and (names_in(n.value.slice) & pick_names)]
+    g2 = False
+    for n in tr2:
+        for (s_, owner, field, idx) in tree.ancestors(n):
+            if isinstance(owner, ast.If) and field == "body" and "ndim > 1" in ast.unparse(owner.test):
+                g2 = True
+    report.add("R20.2", ent, "feature-row candidates: picks translated through the drawn positions",
+               f"{sw.file}:{sw.node.lineno}", bool(tr2) and g2)
+    edges_sw = dep_edges(sw.node.body)
+    cand_kw = kw.get("candidates")
+    okf = all(isinstance(kw.get(k), ast.Name) and kw[k].id == k for k in ("batch_size", "return_utilities")) \
+        and isinstance(cand_kw, ast.Name) and bool(closure({cand_kw.id}, edges_sw) & drawn)
+    report.add("R20.2", ent, "inner query gets the drawn subset, the clipped batch size and return_utilities",
+               f"{sw.file}:{sw.node.lineno}", okf)
     # ---------------- R20.3
     sa = p.get_class("SingleAnnotatorWrapper")
     g = sa.methods.get("_get_order_preserving_s_query")
@@ -177,6 +217,9 @@ def run(p, report, tier):
         carried = closure(c01.operand_names(S, ff.locs), edges) & fw
         report.add("R20.3", f.qual, f"operand of {site_id(S, 50)} depends on earlier picks", f"{f.file}:{S.lineno}",
                    bool(carried), detail=", ".join(sorted(carried)))
+        nan_masks = [n for n in ast.walk(L) if isinstance(n, ast.Assign) and c01.is_nan_expr(n.value)
+                     and isinstance(n.targets[0], ast.Subscript) and (index_names(n.targets[0]) & (rnames | acc))]
+        report.add("R20.3", f.qual, f"chosen pair set to NaN after {site_id(S, 40)}", f"{f.file}:{S.lineno}", bool(nan_masks))
     for f in (pw, sw, g, q):
         da = DefiniteAssignment(f.node).run()
         report.add("R20.3" if f in (g, q) else ("R20.1" if f is pw else "R20.2"), f.qual, "all locals bound before use",
